@@ -14,7 +14,7 @@ RULE = ("one case = one operation (int/slice/mask/int-array selection, take with
 ASSUMPTIONS = ["assignment values contain no NaN (pandas' from_pandas convention turns NaN into null at the input boundary)",
                "integer-array assignment keys address distinct positions (the property's quantifier)"]
 CORRESPONDENCE = "m_getitem_*/m_take/m_concat/m_dropna/m_pickle/m_setitem (ExtArray.v) vs NestedExtensionArray"
-LAYOUTS = [l for l in gen.LAYOUTS if l != "missing_hidden"]
+LAYOUTS = [l for l in gen.LAYOUTS if l != "missing_hidden"] + ["history", "history"]
 
 
 def generate(ctx):
@@ -29,6 +29,9 @@ def generate(ctx):
         corner = {0: "zero_rows", 1: "all_missing", 2: "all_empty"}.get(i % 50)
         inp = ao.mk_input(rng, max_rows=max_rows, recipes=LAYOUTS, corner=corner,
                           recipe=LAYOUTS[i % len(LAYOUTS)] if i < 2 * len(LAYOUTS) else None)
+        if inp.get("history_failed"):
+            cases.append(ao.history_failure_case(inp))
+            continue
         if inp["built"][0] != "ok":
             continue
         op = ops[i % len(ops)]
